@@ -299,8 +299,8 @@ func (V *Verifier) VerifyFunction(tg FuncTarget, only map[string]bool) []*Obliga
 					st.assume(App("bytes", SBool, x.ghosts[g.Name]))
 				}
 			}
-			ev = x.evaluator(st)
 			x.old = st // old() in assumes refers to the entry state
+			ev = x.evaluator(st)
 			for _, a := range beh.Assumes {
 				t, err := ev.boolTerm(a)
 				if err != nil {
@@ -309,6 +309,32 @@ func (V *Verifier) VerifyFunction(tg FuncTarget, only map[string]bool) []*Obliga
 					continue
 				}
 				st.assume(t)
+			}
+		}
+		// an assumption buf.u == <structured term> makes the structured term the buffer's content
+		for _, p := range st.pc {
+			if p.Op != "=" || p.Args[0].Sort != SSeq {
+				continue
+			}
+			for _, side := range []int{0, 1} {
+				if p.Args[side].Op != "var" {
+					continue
+				}
+				for o, c := range st.heap {
+					if o.Kind == "buffer" && c.Seq != nil && Same(c.Seq, p.Args[side]) {
+						st.mut(o).Seq = p.Args[1-side]
+					}
+				}
+			}
+		}
+		if beh != nil {
+			for _, u := range beh.Using {
+				ax, err := V.lemmaAxiom(u)
+				if err != nil {
+					x.fail(st, "contract", "using-"+u, err.Error())
+					continue
+				}
+				st.assume(ax)
 			}
 		}
 		x.old = st.clone()
@@ -450,7 +476,7 @@ func (x *Exec) calleeExec(fc *FuncContract, origin *ssa.Function, targs []types.
 			sigma[origin.TypeParams().At(i)] = targs[i]
 		}
 	}
-	cx := &Exec{V: x.V, fn: origin, fc: fc, sigma: sigma, inst: x.inst, run: x.run, names: map[string]Value{}, ghosts: map[string]*Term{}, holes: map[string]string{}}
+	cx := &Exec{V: x.V, fn: origin, fc: fc, sigma: sigma, inst: x.inst, run: x.run, names: map[string]Value{}, ghosts: map[string]*Term{}, holes: map[string]string{}, isCallee: true}
 	for _, h := range fc.Holes {
 		cx.holes[h.Name] = h.Pinned
 	}
